@@ -113,12 +113,17 @@ func exploreFields(rt reflect.Type, tagName string, sorter KeySortMode) []Struct
 				}
 
 				// Record new anonymous struct to explore in next round.
-				nextCount[ft]++
-				if nextCount[ft] == 1 {
+				if nextCount[ft] == 0 {
 					next = append(next, StructMapEntry{
 						ReflectRoute: route,
 						Type:         ft,
 					})
+				}
+				nextCount[ft]++
+				if count[f.Type] > 1 {
+					// The struct being scanned is itself reachable along
+					// several paths, and so is everything it embeds.
+					nextCount[ft]++
 				}
 			}
 		}
